@@ -1800,7 +1800,12 @@ class Segment(Element):
         return valid
 
     def _get_children(self, trailing=False):
-        children = self.children.get_ordered_children()
+        children = []
+        for name, repetitions in zip(self.ordered_children or [], self.children.get_ordered_children()):
+            # a field is encoded at the position given by its number: the structures of some versions skip the
+            # numbers of withdrawn fields (e.g. there is no DG1_8 in version 2.6)
+            children.extend([None] * (int(name[4:]) - 1 - len(children)))
+            children.append(repetitions)
         if self.allow_infinite_children:
             for i in xrange(self._last_allowed_child_index + 1, self._last_child_index + 1):
                 children.append(self.children.indexes.get('{}_{}'.format(self.name, i), None))
